@@ -66,6 +66,9 @@ Definition au_round (st : state) : state :=
   mkst (diff S1 new) (union (sP st) new) [].
 End Round.
 
+(* uniform three-predicate form of the PaVeBa round (pessB unused) *)
+Definition pv_round3 (d c p : nat -> nat -> bool) : state -> state := pv_round d c.
+
 (* a history: one triple of predicates per round (an arbitrary region assignment per round) *)
 Definition preds := ((nat -> nat -> bool) * (nat -> nat -> bool) * (nat -> nat -> bool))%type.
 Definition run_with (round : (nat -> nat -> bool) -> (nat -> nat -> bool) -> (nat -> nat -> bool) -> state -> state)
@@ -83,3 +86,14 @@ Fixpoint states_with (round : (nat -> nat -> bool) -> (nat -> nat -> bool) -> (n
       end
   end.
 Definition init_state (K : nat) : state := mkst (seq 0 K) [] [].
+
+(* environment of region predicates / slacks / displayed regions used by the regenerated
+   transitions (coq/gen/Gen_algos.v): one named field per name that occurs in the source, so that
+   a changed predicate, argument order or slack in the source changes the generated term *)
+Record penv := mkpenv {
+  region : Type; slackT : Type;
+  is_dominated : region -> region -> slackT -> bool;
+  is_covered : region -> region -> slackT -> bool;
+  check_dominates : region -> region -> bool;
+  slack_zero : slackT; cone_alpha_eps : slackT; u_star_eps : slackT; epsilon_slack : slackT;
+  conf : nat -> region }.
